@@ -38,7 +38,10 @@ def cases(draw, prof):
             pops = draw(st.lists(st.sampled_from(spec["pops"]), unique=True, min_size=1))
             for pop in pops:
                 k0 = draw(st.integers(0, nsteps))
-                y0 = s0 + k0 * dt + draw(st.sampled_from([0.0, 0.0, 0.37 * dt, -0.5 * dt]))
+                off = draw(st.sampled_from([0.0, 0.0, 0.37 * dt, -0.5 * dt]))
+                if k0 == nsteps and off > 0:
+                    off = 0.0  # a scenario that starts after the last simulated time is outside the domain (nothing to overwrite)
+                y0 = s0 + k0 * dt + off
                 npts = draw(st.integers(1, 3))
                 ts = [y0 + i * draw(st.sampled_from([dt, 2.5 * dt, 1.0])) for i in range(npts)]
                 ts = sorted(set(ts))
